@@ -586,8 +586,13 @@ pub async fn col_main(args: &[String]) -> i32 {
             samples.push(case.to_json());
         }
         if let Some((sig, what)) = o.violation {
-            violations.push(json!({"signature": format!("{}:{}/{}", sig, case.ty, case.encode), "what": what, "case": case.to_json()}));
-            if violations.len() >= 20 {
+            // at most 3 witnesses per signature; the run goes on (an open finding must not starve it)
+            let signature = format!("{}:{}/{}", sig, case.ty, case.encode);
+            let seen = violations.iter().filter(|v| v["signature"].as_str() == Some(signature.as_str())).count();
+            if seen < 3 {
+                violations.push(json!({"signature": signature, "what": what, "case": case.to_json()}));
+            }
+            if violations.len() >= 120 {
                 break;
             }
         }
@@ -784,8 +789,11 @@ pub async fn range_main(args: &[String]) -> i32 {
         }
         rows += k;
         if let Some((sig, what)) = v {
-            violations.push(json!({"signature": sig, "what": what, "case": c}));
-            if violations.len() >= 10 {
+            let seen = violations.iter().filter(|v| v["signature"].as_str() == Some(sig.as_str())).count();
+            if seen < 3 {
+                violations.push(json!({"signature": sig, "what": what, "case": c}));
+            }
+            if violations.len() >= 60 {
                 break;
             }
         }
